@@ -4,6 +4,7 @@ CONSTANTS
   MaxLen = 3
   MaxOps = 4
   Universe = "adv"
+  Snaps = FALSE
   BType = "raw"
   BRawId = ""
   Proj <- NoProj
